@@ -76,7 +76,7 @@ std::string Plan::to_jsonl() const {
     for (auto &s : sessions) {
         o << "{\"ses\":" << s.id << ",\"flow\":" << s.flow << ",\"codec\":" << s.codec << ",\"m\":" << s.m
           << ",\"role\":" << jstr(s.role == R_ENC ? "enc" : "dec") << ",\"mode\":" << jstr(s.mode) << ",\"cb\":" << jstr(s.cb)
-          << ",\"cbseed\":" << s.cbseed << ",\"align\":" << s.align << ",\"tag\":" << jstr(s.tag) << ",\"tx\":" << jstr(s.tx) << "}\n";
+          << ",\"cbseed\":" << s.cbseed << ",\"align\":" << s.align << ",\"tag\":" << jstr(s.tag) << ",\"tx\":" << jstr(s.tx) << ",\"both\":" << s.both << "}\n";
     }
     for (auto &p : ops) {
         o << "{\"t\":" << p.t << ",\"s\":" << p.ses << ",\"op\":" << jstr(p.op);
@@ -120,7 +120,7 @@ bool Plan::from_jsonl(const std::string &text, Plan &out, std::string &err) {
         } else if (m.count("ses")) {
             Session s; s.id = (int)i64(m, "ses"); s.flow = (int)i64(m, "flow"); s.codec = (int)i64(m, "codec"); s.m = (int)i64(m, "m");
             s.role = sv(m, "role") == "enc" ? R_ENC : R_DEC; s.mode = sv(m, "mode", "stream"); s.cb = sv(m, "cb", "none");
-            s.cbseed = u64(m, "cbseed"); s.align = (int)i64(m, "align"); s.tag = sv(m, "tag", "flow"); s.tx = sv(m, "tx", "real");
+            s.cbseed = u64(m, "cbseed"); s.align = (int)i64(m, "align"); s.tag = sv(m, "tag", "flow"); s.tx = sv(m, "tx", "real"); s.both = (int)i64(m, "both");
             out.sessions.push_back(s);
         } else if (m.count("flow")) {
             Flow f; f.id = (int)i64(m, "flow"); f.codec = (int)i64(m, "codec"); f.m = (int)i64(m, "m"); f.k = (uint32_t)u64(m, "k"); f.r = (uint32_t)u64(m, "r"); f.E = (uint32_t)u64(m, "E");
